@@ -18,7 +18,7 @@ RULE = ("48 policy combinations x int/str/float labels x n_jobs in {1,3} x histo
         "remove_arm (incl. before the first fit and re-adding a removed label), fit, partial_fit, warm_start with predict / "
         "predict_expectations on m in {none,1,2,3,5,8} rows; non-trivial = history with >=1 add and >=1 remove each followed "
         "by a query; distinct = (combo, labels, n_jobs, op skeleton)")
-BUDGET = {"quick": {"cases": 48 * 6, "shards": 8}, "thorough": {"cases": 48 * 100, "shards": 16, "wall_s": 2700}}
+BUDGET = {"quick": {"cases": 48 * 8, "shards": 8}, "thorough": {"cases": 48 * 104, "shards": 16, "wall_s": 2700}}
 MIN = {"quick": {"evaluations": 1000, "nontrivial": 60, "counters": {"c08_predict": 400, "c08_expectations": 400}},
        "thorough": {"evaluations": 15000, "nontrivial": 1000, "counters": {"c08_predict": 5000, "c08_expectations": 5000}}}
 ASSUMPTIONS = ["homogeneous arm labels (numpy coerces mixed lists before the library sees them)",
@@ -30,20 +30,21 @@ KINDS = ["add_arm", "remove_arm", "add_arm", "remove_arm", "fit", "partial_fit",
 
 def run_case(rs, ctx):
     l, p = gen.ALL_COMBOS[ctx.index % 48]
-    labels = ["int", "str", "float"][(ctx.index // 48) % 3]
-    n_jobs = 3 if (ctx.index // 144) % 2 else 1
+    labels = ["int", "str", "float", "mixnum"][(ctx.index // 48) % 4]
+    n_jobs = 3 if (ctx.index // 192) % 2 else 1
     backend = "threading" if n_jobs > 1 and (ctx.tier == "quick" or rs.integers(16)) else None  # None -> loky processes (slow)
     cfg = gen.gen_cfg(rs, l, p, labels=labels, n_arms=int(gen.pick(rs, [1, 2, 3, 4, 2, 3, 4, 17])), n_jobs=n_jobs, backend=backend)
     cfg["min_arms"] = 1  # a bandit may shrink to (or start with) a single arm
     nf = int(gen.pick(rs, [1, 2, 3]))
     sh = gen.Shadow(cfg, nf)
+    sh.vary_nf = True
     ops = gen.gen_ops(rs, cfg, sh, int(rs.integers(0, 4)), ["add_arm", "remove_arm"]) + \
         gen.gen_ops(rs, cfg, sh, 1, ["fit"], train_rows=(4, 16)) + \
         gen.gen_ops(rs, cfg, sh, int(rs.integers(8, 21)), KINDS, train_rows=(1, 8),
                     sizes=(1, 2, 3, 5, 8) if rs.integers(4) else (1, 2, 17, 33, 70, 130))
     if ctx.index % 96 in (4, 52) and p == "clusters" and l in ("eg", "ucb", "rnd", "sm", "pop", "ts"):
         # one very long batch (more rows than any internal per-task limit): every row must come back, in order
-        ops.append({"op": "predict", "X": gen.gen_contexts(rs, 32768 + int(rs.integers(1, 40000)), nf)})
+        ops.append({"op": "predict", "X": gen.gen_contexts(rs, 32768 + int(rs.integers(1, 40000)), sh.nf)})
         ctx.count("very_long_queries")
     m = gen.build(cfg)
     arms = list(cfg["arms"])
